@@ -94,6 +94,12 @@ Theorem reserved_never_raw : forall fl s c,
   mem_byte c (escape v2_hex_chars v2_unescaped_path_chars v2_unescaped_query_chars v2_header_escaped_chars fl s) = false.
 Proof. exact ConformProofs.v2_reserved_never_raw. Qed.
 
+(* a space of a query value is written %20 by the writer: '+' (which a query-string reader must take for a space, see
+   [pct_text] pt_plus) never appears raw in the query flavour - a literal plus is %2B *)
+Theorem query_output_never_plus : forall s,
+  mem_byte x2b (escape v2_hex_chars v2_unescaped_path_chars v2_unescaped_query_chars v2_header_escaped_chars FQuery s) = false.
+Proof. exact ConformProofs.v2_query_output_never_plus. Qed.
+
 (* ---------------------------------------------------------------- emitted keys ------------------------------------------ *)
 (* the members of an emitted record are exactly the names of the fields that are set (own and included, flattened); the
    members of an emitted map are exactly the map's keys *)
@@ -164,7 +170,8 @@ Definition json_accepts_all_conforming_full (valid : env -> ty -> value -> Prop)
   exists fuel v' tr, decJ e wildcard ps_empty 0 parseF fuel true t jd tracker0 = Ok (v', tr) /\ t_missing tr = [].
 
 (* ROR2, leaf types (a primitive, enum or fixed value as a whole header / path segment / query value): every text of the notation
-   that denotes a valid value - ANY byte percent-encoded or not, upper or lower case hex digits - is accepted by the cursor-level
+   that denotes a valid value - ANY byte percent-encoded or not, upper or lower case hex digits, and in the query flavour a space
+   written '+' - is accepted by the cursor-level
    reader of the model (with the decoder of the flavour: PathUnescape, or QueryUnescape for the query flavour) and yields it *)
 Theorem ror2_accepts_conforming_leaves :
   forall e (float_text : bool -> bytes -> N -> Prop) (parseF : nat -> bytes -> option N) (wildcard : bytes) (ignore : nat)
@@ -220,6 +227,13 @@ Example permuted_unknown_accepted_example :
   = Ok (ex_value, tracker0).
 Proof. exact ConformConverse.ex_permuted_unknown_accepted. Qed.
 
+(* '+' is a space in a query string - and a literal plus in a path segment *)
+Example plus_is_space_in_query : forall e float_text,
+  ror2_denotes e float_text InQuery (TPrim PString) [x61; x2b; x62] (VStr [x61; x20; x62]).
+Proof. exact ConformConverse.plus_is_space_in_query. Qed.
+Example plus_is_plus_in_path : pct_text InPath [x61; x2b; x62] [x61; x2b; x62] /\ ~ pct_text InPath [x61; x2b; x62] [x61; x20; x62].
+Proof. exact ConformConverse.plus_is_plus_in_path. Qed.
+
 Example ror2_conforms_example : forall float_text,
   ror2_denotes ex_env float_text InQuery (TRef 0)
     [x28; x61; x3a; x37; x2c; x6d; x3a; x28; x25; x32; x38; x3a; x25; x32; x30; x25; x32; x37; x29; x29] ex_value.
@@ -231,6 +245,7 @@ Print Assumptions ror2_output_conforms_partial.
 Print Assumptions ror2_output_conforms_refuted.
 Print Assumptions ror2_output_in_grammar.
 Print Assumptions reserved_never_raw.
+Print Assumptions query_output_never_plus.
 Print Assumptions emitted_keys_spec.
 Print Assumptions json_accepts_all_conforming_partial.
 Print Assumptions json_accepts_all_conforming_plain.
